@@ -189,6 +189,8 @@ pub fn build_pair_world(r: &mut Rng, kind: Kind, variant: u64) -> PairWorld {
         Kind::Cp => *r.pick(&[[6u8, 6u8], [6, 18], [18, 6], [8, 6], [0, 6]]),
         Kind::Stable => *r.pick(&[[6u8, 6u8], [6, 8], [8, 6], [6, 18], [18, 6], [4, 5]]),
     };
+    // every third world with a native second asset uses a token-factory style denom for it
+    let denom1: &str = if kinds.1 && (variant / 4) % 3 == 0 { "factory/migaloo1creatoraddressxyz/ubbb" } else { "ubbb" };
     let mut balances = vec![];
     for u in users.iter().chain(std::iter::once(&owner)) {
         let mut c = vec![];
@@ -196,7 +198,7 @@ pub fn build_pair_world(r: &mut Rng, kind: Kind, variant: u64) -> PairWorld {
             c.push(coin(USER_FUNDS, "uaaa"));
         }
         if kinds.1 {
-            c.push(coin(USER_FUNDS, "ubbb"));
+            c.push(coin(USER_FUNDS, denom1));
         }
         c.push(coin(USER_FUNDS, "uzzz"));
         balances.push((u.clone(), c));
@@ -216,7 +218,7 @@ pub fn build_pair_world(r: &mut Rng, kind: Kind, variant: u64) -> PairWorld {
         }
     };
     let a0 = mk(&mut app, kinds.0, "uaaa", decs[0], &mut tokens);
-    let a1 = mk(&mut app, kinds.1, "ubbb", decs[1], &mut tokens);
+    let a1 = mk(&mut app, kinds.1, if kinds.1 { denom1 } else { "ubbb" }, decs[1], &mut tokens);
     let fees = r.fee_triple();
     let (pt, amp) = match kind {
         Kind::Cp => (PairType::ConstantProduct, 0),
@@ -1130,6 +1132,80 @@ pub fn run_history(acc: &mut Acc, r: &mut Rng, kind: Kind, variant: u64, steps: 
                 }
             }
             class.push(7);
+        } else if op < 97 && obs.s > 0 && wd.fees[0] > 0 {
+            // steer a pending protocol fee onto the collectable-minimum boundary (999 / 1000 / 1001), then collect
+            what = "steer pending fee to the collection threshold, then collect".to_string();
+            ok = true;
+            let i = r.idx(2);
+            let target = *r.pick(&[1000u128, 1000, 1001, 999]);
+            if obs.pend[i] < target {
+                let need = target - obs.pend[i];
+                let dir = 1 - i;
+                // protocol_fee(offer) is monotone in the offer: bisect on the simulation
+                let (mut lo, mut hi) = (1u128, obs.r[dir].saturating_mul(8).max(1_000_000));
+                let mut found = None;
+                for _ in 0..140 {
+                    if lo > hi {
+                        break;
+                    }
+                    let mid = lo + (hi - lo) / 2;
+                    match wd.simulate(dir, mid) {
+                        Ok(sm) => {
+                            let pf = sm.protocol_fee_amount.u128();
+                            if pf == need {
+                                found = Some(mid);
+                                break;
+                            } else if pf < need {
+                                lo = mid + 1;
+                            } else {
+                                hi = mid - 1;
+                            }
+                        }
+                        Err(_) => hi = mid - 1,
+                    }
+                }
+                if let Some(amount) = found {
+                    let pl = SwapPlan { user, dir, amount, belief: None, max_spread: Some(ONE18 / 2), to: None };
+                    if monitored_swap(acc, &mut wd, &pl) {
+                        if let Ok(o2) = wd.observe() {
+                            if o2.pend[i] == target {
+                                acc.count(&format!("steer.pending=={target}.then-collect"));
+                            }
+                        }
+                        monitored_collect(acc, &mut wd, r.idx(4));
+                    }
+                }
+            }
+            class.push(9);
+        } else if op < 98 {
+            // hostile use of the entry points: under-funded or unfunded calls and the rarely used direct
+            // WithdrawLiquidity{} variant. Normally rejected; if one is accepted the usual invariants judge it.
+            let (desc, res) = hostile_call(&mut wd, r, user, &obs);
+            what = format!("hostile: {desc}");
+            wd.log(what.clone());
+            acc.count("hostile.attempted");
+            match res {
+                Ok(_) => {
+                    acc.count("hostile.accepted");
+                    ok = true;
+                    if let Ok(post) = wd.observe() {
+                        check_step(acc, &wd, &obs, &post, &what);
+                        check_stable_lp(acc, &wd, &obs, &post, &what);
+                        // an accepted hostile call must not have taken anything out of the pool
+                        for i in 0..2 {
+                            if post.bal[i] < obs.bal[i] {
+                                let p = if kind == Kind::Cp { "C01" } else { "C03" };
+                                acc.violation(p, "I6/under-funded-call-took-assets-out-of-the-pool", viol_detail(&wd, json!({"asset": i, "before": obs.bal[i].to_string(), "after": post.bal[i].to_string(), "step": what})));
+                            }
+                        }
+                    }
+                }
+                Err(_) => {
+                    acc.count("hostile.rejected");
+                    ok = false;
+                }
+            }
+            class.push(8);
         } else {
             what = "probe".to_string();
             probes(acc, &mut wd, r);
@@ -1173,6 +1249,58 @@ pub fn run_history(acc: &mut Acc, r: &mut Rng, kind: Kind, variant: u64, steps: 
         acc.add(&format!("trap-site: {k}"), v);
     }
     acc.sample(|| json!({"history_tail": wd.tail(12), "kind": format!("{kind:?}"), "assets": [wd.pair.assets[0].id(), wd.pair.assets[1].id()], "decimals": wd.pair.decimals}));
+}
+
+/// one under-funded / unfunded / odd-variant call by `user`
+fn hostile_call(wd: &mut PairWorld, r: &mut Rng, user: usize, obs: &Obs) -> (String, Result<cw_multi_test::AppResponse, String>) {
+    let usr = wd.users[user].clone();
+    let pa = wd.pair.addr.clone();
+    let natives: Vec<usize> = (0..2).filter(|i| wd.pair.assets[*i].is_native()).collect();
+    let small = *r.pick(&[1u128, 999, 1000, 1001, 1_000_000]);
+    match r.below(6) {
+        0 => {
+            // direct WithdrawLiquidity{} (token-factory LP variant) with one coin of some denom
+            let dn = if !natives.is_empty() && r.chance(1, 2) { wd.pair.assets[natives[0]].id() } else { "uzzz".to_string() };
+            (format!("WithdrawLiquidity{{}} with {small}{dn}"), exec(&mut wd.app, &usr, &pa, &pm::ExecuteMsg::WithdrawLiquidity {}, &[coin(small, dn)]))
+        }
+        1 if !natives.is_empty() => {
+            // native swap declared but no coins attached
+            let i = *r.pick(&natives);
+            let amt = (obs.r[i] / 10).max(small);
+            (format!("Swap asset{i} {amt} with no funds"), exec(&mut wd.app, &usr, &pa, &pm::ExecuteMsg::Swap { offer_asset: wd.pair.assets[i].asset(amt), belief_price: None, max_spread: Some(dec(ONE18 / 2)), to: None }, &[]))
+        }
+        2 if !natives.is_empty() => {
+            // native swap declared, one unit less attached / another denom attached
+            let i = *r.pick(&natives);
+            let amt = (obs.r[i] / 10).max(small).max(2);
+            let funds = if r.chance(1, 2) { vec![coin(amt - 1, wd.pair.assets[i].id())] } else { vec![coin(amt, "uzzz")] };
+            (format!("Swap asset{i} {amt} with funds {funds:?}"), exec(&mut wd.app, &usr, &pa, &pm::ExecuteMsg::Swap { offer_asset: wd.pair.assets[i].asset(amt), belief_price: None, max_spread: Some(dec(ONE18 / 2)), to: None }, &funds))
+        }
+        3 if !natives.is_empty() => {
+            // deposit declared, native side one unit short
+            let d = [(obs.r[0] / 100).max(1000), (obs.r[1] / 100).max(1000)];
+            let mut funds = vec![];
+            for i in &natives {
+                funds.push(coin(d[*i] - 1, wd.pair.assets[*i].id()));
+            }
+            funds.sort_by(|a, b| a.denom.cmp(&b.denom));
+            (format!("ProvideLiquidity {d:?} with native funds one unit short"), exec(&mut wd.app, &usr, &pa, &pm::ExecuteMsg::ProvideLiquidity { assets: [wd.pair.assets[0].asset(d[0]), wd.pair.assets[1].asset(d[1])], slippage_tolerance: None, receiver: None }, &funds))
+        }
+        4 => {
+            // LP token sent with a Swap hook (the LP token is not a pool asset)
+            let have = bal_cw20(&wd.app, &wd.pair.lp, &usr);
+            let amt = (have / 2).max(1);
+            let lp = wd.pair.lp.clone();
+            (format!("cw20 Send of {amt} LP with a Swap hook"), cw20_send(&mut wd.app, &lp, &usr, &pa, amt, &pm::Cw20HookMsg::Swap { belief_price: None, max_spread: None, to: None }))
+        }
+        _ => {
+            // a pool asset (cw20) sent with a WithdrawLiquidity hook, or an unfunded deposit of zero
+            match wd.pair.assets.iter().find_map(|a| if let AssetRef::Cw20(t) = a { Some(t.clone()) } else { None }) {
+                Some(t) => (format!("cw20 Send of {small} pool asset with a WithdrawLiquidity hook"), cw20_send(&mut wd.app, &t, &usr, &pa, small, &pm::Cw20HookMsg::WithdrawLiquidity {})),
+                None => ("WithdrawLiquidity{} with no funds".to_string(), exec(&mut wd.app, &usr, &pa, &pm::ExecuteMsg::WithdrawLiquidity {}, &[])),
+            }
+        }
+    }
 }
 
 pub fn run_cp_histories(ctx: &Ctx, shard: u64, acc: &mut Acc, n_hist: u64, steps: u64, prop: &str) {
